@@ -688,6 +688,18 @@ def shapes(maxdepth=2, maxtop=3, maxkids=2, maxleaves=6, always=False):
     return res
 
 
+def tier_bound(job, tier):
+    """deviation bound of a scheduler-group job: 2; in the thorough tier 3 for forests of at most 2 leaves
+    (the bound-3 space of a 4-leaf forest is ~10^7 executions per shape, ~10^9 over the shape set)"""
+    if tier == "quick":
+        return 2
+    return 3 if count_leaves(job[1]) <= 2 else 2
+
+
+THOROUGH_NOTE = ("thorough tier: every forest of nesting depth <= 3 with <= 4 leaves at deviation bound 2, and every forest with "
+                 "<= 2 leaves at bound 3")
+
+
 def count_leaves(shape):
     return sum(1 if s == "L" else count_leaves(s[2]) for s in shape)
 
